@@ -70,10 +70,15 @@ CHECKS = {
         "text": ("gjk_distance_original (full closest-point certificate at 1e-3*L), gjk_nesterov_accelerated with and without "
                  "acceleration on all 100 ordered pairs incl. every mixed specialised/generic pair, and the primitives variant on "
                  "its 25 pairs are executed on deviation-1 (full alphabets) + deviation-2 (reduced alphabets) scenes with "
-                 "constructed truth; *_distance and *_iterations helpers must equal the full call started from the same state."),
+                 "constructed truth; *_distance and *_iterations helpers must equal the full call started from the same state. "
+                 "Kernel family: project_line_origin / project_triangle_origin / project_tetra_to_origin of both Nesterov modules are executed "
+                 "on EVERY ordered simplex of 2-4 distinct points of the lattice {-1,0,1}^3 (two offsets, thorough three) that satisfies the GJK "
+                 "loop invariant (previous simplex = minimal face of the iterate, strict progress of the newest point, winding set by "
+                 "origin_to_triangle) and compared with the exact rational minimum-norm point; the reduced simplex must be a subset of the "
+                 "input whose hull contains the returned point."),
         "design_ref": "DESIGN.md 5 C09",
         "note": "Trusted: reference model. Mesh vertex caches are reset to the same state before each compared call.",
-        "technique": "bounded-exhaustive scene-lattice exploration of the real alternative GJK flavours vs constructed truth and certificate",
+        "technique": "bounded-exhaustive scene-lattice exploration of the real alternative GJK flavours vs constructed truth and certificate; exhaustive lattice enumeration of the projection kernels under the loop invariant vs exact rational arithmetic",
     },
     "C14": {
         "text": ("For every collider type with update_pose (x 2 sizes x Margin): all histories of 1..3 update_pose calls over 6 poses "
@@ -144,13 +149,15 @@ CHECKS = {
         "technique": "exhaustive enumeration of primitive-alphabet products on the real code vs separating-plane certificates / Lipschitz interval subdivision",
     },
     "C06": {
-        "text": ("Three generated URDF robots (3-link chain, 4-link chain with prismatic joints, branching tree with asymmetric generated "
-                 "whitelists) with sphere/box/cylinder geometry plus capsule, cone and mesh colliders added with add_collider: every edge of "
-                 "the joint-configuration graph (all single-joint moves between all lattice configurations, 27/54/36 configurations) and "
+        "text": ("Four generated URDF robots (3-link chain, 4-link chain with prismatic joints, branching tree with asymmetric generated "
+                 "whitelists, gripper with prefix link names, child links declared before the parent, mounted on a rotated base 1e3 units "
+                 "from the origin with a 4 mm prismatic jog) with sphere/box/cylinder geometry plus capsule, cone and mesh colliders added with add_collider: every edge of "
+                 "the joint-configuration graph (all single-joint moves between all lattice configurations, 27/54/36/12 configurations) and "
                  "all move sequences of length <= 3 are executed on a live BVH (set_joint + update_collider_poses). In every state: collider "
                  "poses = transform manager; aabb_overlapping_colliders (all own colliders with/without whitelist, 6 external queries), "
                  "aabb_overlapping_with_self, aabb_overlapping_with_other_bvh = all-pairs model; detect between the lower and upper set "
-                 "of the statement; detect_any = exists; live BVH = BVH built fresh at that configuration."),
+                 "of the statement; detect_any = exists; live BVH = BVH built fresh at that configuration; generated whitelists vs the kinematic "
+                 "structure (own and parent link must be whitelisted, only child links may be in addition)."),
         "design_ref": "DESIGN.md 5 C06",
         "note": "Trusted: pytransform3d transform manager / URDF parser. Colliding pairs whose AABBs miss by < 1e-9*L (grazing, inside C04's tolerance) are allowed but not required.",
         "technique": "explicit-state exploration of the configuration graph on the real BVH vs all-pairs reference model and fresh-object differential oracle",
@@ -168,7 +175,8 @@ CHECKS = {
     },
     "C15": {
         "text": ("(a) 3 reference tetrahedra (right corner, regular, sliver) x 3 partner tetrahedra x 26 rotations (all 24 cube rotations: faces "
-                 "parallel to the contact plane) x 125 lattice translations (shared faces, containment, touching) x 3 Young's modulus pairs, "
+                 "parallel to the contact plane) x 125 lattice translations (shared faces, containment, touching; + 54 translations with faces 1e-7 apart, + 6 rotations with both "
+                 "tetrahedra 700 units from the origin) x 3 Young's modulus pairs, "
                  "intersect_tetrahedron_pair in both argument orders; (b) 36 factory body pairs x 6 placements (axis-aligned stacking, deep, "
                  "offset, side, touching, separated) x orientations x moved frames, every reported tetrahedron pair of find_contact_surface. "
                  "Per polygon: vertices on the plane and inside both tetrahedra (independent barycentric solve >= -1e-9), convex, area = "
@@ -179,13 +187,18 @@ CHECKS = {
         "technique": "bounded-exhaustive enumeration of tetrahedron-pair and body-pair placements on the real code vs independent barycentric/plane/convexity checks",
     },
     "C16": {
-        "text": ("36 factory body pairs x 4 contact placements x rotations of body 1 and of body 2 (general, not just identity): for each scene "
+        "text": ("(a) Explicit-state search over call histories on live bodies: 4 bodies (a, b, c in another rotated frame, d = b shifted by < 2 mm) "
+                 "x 24 operations (contact_forces, contact_forces(return_details=True), find_contact_surface(use_aabb_trees=True) on the 8 "
+                 "ordered pairs with contact), breadth-first with canonical-state de-duplication (frame of every body + filled private "
+                 "attributes) to depth 3 (thorough 6) from 8 scenes (4 factory pairs x {origin, rotated frame 1e3 units away}); every "
+                 "transition must equal the same call on fresh bodies (1e-6 relative) and afterwards every filled cache must equal its "
+                 "recomputed value. (b) 36 factory body pairs x 4 contact placements x rotations of body 1 and of body 2 (general, not just identity): for each scene "
                  "the transition relations f12 = -f21, swap of the bodies swaps the wrenches, 5 common rigid motions rotate the forces, repeated "
                  "call on the re-expressed bodies, 6 interleaved call histories (length <= 3) with a third body, and the tree broad phase "
                  "(use_aabb_trees=True) = brute-force pair set, each within 5% of |f| with unchanged intersection flag."),
         "design_ref": "DESIGN.md 5 C16",
         "note": "Sphere bodies (make_sphere takes a centre only, so the mesh does not rotate with the scene) are compared under translations only. Flag flips of zero-area grazing contacts are ignored.",
-        "technique": "bounded-exhaustive enumeration of body-pair scenes x transition relations and call histories on the real contact_forces",
+        "technique": "explicit-state breadth-first search over call histories of live RigidBody objects (canonical-state de-duplication, fresh-object differential oracle, cache invariants) + bounded-exhaustive enumeration of body-pair scenes x transition relations",
     },
     "C12": {
         "text": ("Metamorphic transition relations on ~1.26e4 states (scene lattice with <= 1 deviation for all 100 type pairs + penetrating "
@@ -202,7 +215,7 @@ CHECKS = {
         "text": ("A corpus of ~9e3 call descriptors drawn from the quick corpora of the other properties (support functions, AABBs, all GJK "
                  "flavours, boolean tests, EPA, the 34 primitive distance functions on their full alphabets, containment predicates, simplex "
                  "solvers on lattice multisets, AABB-tree histories incl. empty trees, tetrahedron-pair intersection, hydroelastic body "
-                 "pairs, mesh factories; ~9.5e4 library calls) is executed in three fresh interpreter processes - JIT, NUMBA_DISABLE_JIT=1, "
+                 "pairs, mesh factories, the jitted utilities of utils / geometry / minkowski; ~9.5e4 library calls; thorough: 1.25e5 descriptors) is executed in three fresh interpreter processes - JIT, NUMBA_DISABLE_JIT=1, "
                  "JIT + NUMBA_BOUNDSCHECK=1 - and compared call by call (closed forms 1e-9, iterative solvers at their property's "
                  "tolerance, booleans on certified-margin scenes, exception types); plus the import obligation with the JIT on."),
         "design_ref": "DESIGN.md 5 C20",
